@@ -104,10 +104,19 @@ model (the driver separately insists that this model reproduces the implementati
 * `maxa-init`       — `maxa[j]` is initialised with the *extension* penalty because the first row
                       holds a horizontal gap (`trace[0][j-1] == LEFT`) and there is a second row.
 
-A failure is attributed only if, in addition, the repaired model satisfies the whole predicate on
-the same input (so the border logic is what separates failure from success).  Anything else stays
-an unattributed `fail:<clause>`. -/
-def attributeFailure (a : Aligner) (S : Spec.SW.Scheme) (s1 s2 : Seq) (tiny : Bool) : Option String :=
+A failure is attributed only if, in addition, (a) the model of the shipped code exhibits the very
+same failing clause on this input (the failure is a consequence of the modelled border logic, not
+of something else the implementation does) and (b) the repaired model satisfies the whole predicate
+on the same input (so the border logic is what separates failure from success).  Anything else
+stays an unattributed `fail:<clause>`. -/
+def attributeFailure (a : Aligner) (S : Spec.SW.Scheme) (s1 s2 : Seq) (tiny : Bool) (verdict : String) :
+    Option String :=
+  let shipped := align a false s1 s2
+  let shippedVerdict := match shipped with
+    | .ok _ => predicate S s1 s2 tiny (fields (render 0 shipped))
+    | .err => "na"
+    | .panic => "fail:panic"
+  if shippedVerdict != verdict then none else
   if s1.isEmpty || s2.isEmpty then some "empty-sequence" else
   match seqToIndices a s1, seqToIndices a s2 with
   | some i1, some i2 =>
@@ -160,7 +169,7 @@ def handle : Handler := fun op args impl =>
     -- a failure of the shipped code is tagged with the recorded finding that explains it, if any
     let verdict :=
       if verdict.startsWith "fail:" && v == 0 then
-        match scheme.bind fun S => attributeFailure a S s1 s2 tiny with
+        match scheme.bind fun S => attributeFailure a S s1 s2 tiny verdict with
         | some w => verdict ++ "@" ++ w
         | none => verdict
       else verdict
